@@ -88,7 +88,7 @@ def families(tier):
             continue
         names = ['A', 'B'] if cb == 'B' else ['A']
         copt = {} if tc is None else {'timeout': tc}
-        hs = [dict(bus='A', pat='P', name='hp', prog=[('disp', cb, 'C', 'await', copt)]), dict(bus=cb, pat='C', name='hc1', prog=[('pause',), ('ret', 1)]),
+        hs = [dict(bus='A', pat='P', name='hp', prog=[('disp', cb, 'C', 'await', copt), ('pause',), ('pause',)]), dict(bus=cb, pat='C', name='hc1', prog=[('pause',), ('ret', 1)]),
               dict(bus=cb, pat='C', name='hc2', prog=[('pause',), ('ret', 2)])]
         for b in names:
             hs.append(dict(bus=b, pat='X', name='hs' + b, prog=[('ret', 0)]))
